@@ -126,7 +126,9 @@ class SvsInst:
             if not rsv.node_id or rsv.seq_no is None:
                 # Skip malformed entries
                 continue
-            rsv_id = enc.Name.to_bytes(rsv.node_id)
+            # Re-encode the components: the same name with a non-minimal TLV length is the same node
+            rsv_id = enc.Name.to_bytes([enc.Component.from_bytes(enc.Component.get_value(c), enc.Component.get_type(c))
+                                        for c in rsv.node_id])
             rsv_seq = rsv.seq_no
             if rsv_id == self.self_node_id and rsv_seq > self.self_seq:
                 self.logger.error('Remote side has more local data for local node.')
